@@ -604,6 +604,139 @@ def t_handler_nesting(rng, feats):
 (reverse tr)""" % body
 
 
+def t_native_callback(rng, feats):
+    """Handlers and winds installed INSIDE the callback of a native higher-order built-in.
+
+    The callbacks of `transduce` (stages `mapping` / `filtering`, reducers `into-for-each` / `into-reducer`) are
+    run by Rust code in a nested interpreter instance (`call_with_instructions_and_reset_state`), which has its
+    OWN error-unwinding loop and handler search, separate from the one of the top-level evaluation.  So every
+    obligation of `handler_nearest` / `wind_normal_and_error_once` has a second site in the real code that is
+    reached only by a handler frame pushed inside such a callback.  The family: a random nest of
+    call-with-exception-handler / with-handler / dynamic-wind / helper calls / further transduce levels inside
+    the callback, errors raised in bodies AND in handlers (a handler that raises the error again, raises a new
+    one, fails only the first times it runs, or returns), one or two handlers around the whole `transduce`.
+    No continuation is captured by the program text (that is the class of finding K08e); names avoid the
+    continuation-variable pattern of that class predicate."""
+    feats.add("tmpl-native-callback")
+    r = rng
+    cnt = [0]
+
+    def fresh(p):
+        cnt[0] += 1
+        return "%s%d" % (p, cnt[0])
+
+    helpers = []
+
+    def err(x):
+        k = r.choice(["error", "error", "car", "vecref", "plus"])
+        feats.add("nc-err:" + k)
+        if k == "error":
+            return '(error "%s" %s)' % (fresh("e"), x)
+        if k == "car":
+            return "(car %s)" % x
+        if k == "vecref":
+            return "(vector-ref (vector 1 2) 7)"
+        return "(+ 1 'a)"
+
+    def hbody(d, x, depth):
+        """Body of a handler `(lambda (e) …)`."""
+        y = r.random()
+        if y < 0.22:
+            feats.add("nc-handler-returns")
+            return lit(r)
+        if y < 0.45:
+            feats.add("nc-handler-reraises")
+            return "(raise-error e)"
+        if y < 0.62:
+            feats.add("nc-handler-raises-new")
+            return err(x)
+        if y < 0.80:
+            feats.add("nc-handler-fails-first-times")
+            return "(if (again?) %s %s)" % (err(x), lit(r))
+        if y < 0.88 or d <= 0:
+            return "(begin (note '%s) (raise-error e))" % fresh("r")
+        feats.add("nc-control-inside-handler")
+        return body(d - 1, x, depth)
+
+    def body(d, x, depth):
+        """An integer-valued expression (unless an error leaves it); `x` = the callback's variable."""
+        y = r.random()
+        if d <= 0:
+            return err(x) if y < 0.45 else ("(note (+ %s %s))" % (x, lit(r)) if y < 0.8 else x)
+        if y < 0.08:
+            return "(note (+ %s %s))" % (x, lit(r))
+        if y < 0.20:
+            return err(x)
+        if y < 0.45:
+            feats.add("nc-cweh")
+            t = fresh("h")
+            return "(call-with-exception-handler (lambda (e) (note '%s) %s) (lambda () %s))" % (
+                t, hbody(d - 1, x, depth), body(d - 1, x, depth))
+        if y < 0.52:
+            feats.add("nc-with-handler")
+            return "(with-handler (lambda (e) (note '%s) %s) %s)" % (fresh("h"), lit(r), body(d - 1, x, depth))
+        if y < 0.72:
+            feats.add("nc-wind")
+            t = fresh("w")
+            out = "(note 'out-%s)" % t
+            if r.random() < 0.12:
+                feats.add("nc-after-thunk-raises")
+                out = "(begin (note 'out-%s) (if (again?) %s 0))" % (t, err(x))
+            return "(dynamic-wind (lambda () (note 'in-%s)) (lambda () %s) (lambda () %s))" % (t, body(d - 1, x, depth), out)
+        if y < 0.80:
+            return "(begin (note '%s) %s)" % (fresh("s"), body(d - 1, x, depth))
+        if y < 0.87:
+            return "(+ %s %s)" % (lit(r), body(d - 1, x, depth))
+        if y < 0.93:
+            feats.add("nc-helper-call")
+            name, a = fresh("nc"), fresh("a")
+            helpers.append("(define (%s %s) %s)" % (name, a, body(d - 1, a, depth)))
+            return "(%s (+ %s %s))" % (name, x, lit(r))
+        if depth < 2:
+            feats.add("nc-nested-transduce")
+            return pipeline(d - 1, depth + 1)
+        return "(note %s)" % x
+
+    def pipeline(d, depth):
+        lst = "(list %s)" % " ".join(str(r.choice([1, 2, 3, 4, 5, 7])) for _ in range(r.choice([1, 2, 2, 3])))
+        x = fresh("x")
+        shape = r.choice(["map", "map", "map", "filter", "map-filter", "for-each", "reduce"])
+        feats.add("nc-shape-" + shape)
+        if shape == "map":
+            return "(apply + (transduce %s (mapping (lambda (%s) %s)) (into-list)))" % (lst, x, body(d, x, depth))
+        if shape == "filter":
+            return "(length (transduce %s (filtering (lambda (%s) (< %s 4))) (into-list)))" % (lst, x, body(d, x, depth))
+        if shape == "map-filter":
+            z = fresh("x")
+            return "(apply + (transduce %s (mapping (lambda (%s) %s)) (filtering (lambda (%s) (< %s 9))) (into-list)))" % (
+                lst, x, body(d, x, depth), z, body(max(0, d - 1), z, depth))
+        if shape == "for-each":
+            return "(begin (transduce %s (into-for-each (lambda (%s) %s))) %s)" % (lst, x, body(d, x, depth), lit(r))
+        a = fresh("acc")
+        return "(transduce %s (into-reducer (lambda (%s %s) (+ %s %s)) %s))" % (lst, a, x, a, body(d, x, depth), lit(r))
+
+    core = pipeline(r.choice([2, 3, 3, 4]), 1)
+    y = r.random()
+    if y < 0.45:
+        feats.add("nc-outer-with-handler")
+        core = "(with-handler (lambda (e) (note 'top) -1) (+ 100 %s))" % core
+    elif y < 0.8:
+        feats.add("nc-outer-cweh")
+        core = "(call-with-exception-handler (lambda (e) (note 'top) -1) (lambda () (+ 100 %s)))" % core
+    else:
+        feats.add("nc-outer-two-handlers")
+        core = ("(call-with-exception-handler (lambda (e) (note 'top) -1) (lambda () (+ 100 (call-with-exception-handler "
+                "(lambda (e) (note 'mid) (raise-error e)) (lambda () (+ 10 %s))))))" % core)
+    lines = ["(define tr '())", "(define (note x) (set! tr (cons x tr)) x)", "(define budget %d)" % r.choice([1, 2, 3, 4]),
+             "(define (again?) (if (> budget 0) (begin (set! budget (- budget 1)) #t) #f))"]
+    lines += helpers
+    lines += ["(define (go) %s)" % core, "(go)"]
+    if r.random() < 0.3:
+        lines.append("(go)")        # a second run: what the first one left behind (budget used up, handlers uninstalled?)
+    lines.append("(reverse tr)")
+    return "\n".join(lines)
+
+
 TEMPLATES = [t_generator, t_coroutines, t_amb, t_with_lock, t_reset_shift, t_handler_nesting]
 
 
@@ -614,10 +747,12 @@ def gen_program(rng, size=3, handler_errors=None):
     if handler_errors is None:
         # errors raised inside with-handler handlers are the class of findings K08b/K08c: a third of the programs
         handler_errors = rng.random() < 0.33
-    if x < 0.25:
+    if x < 0.22:
         t = rng.choice(TEMPLATES)
         return t(rng, feats), feats
-    if x < 0.41:
+    if x < 0.30:
+        return t_native_callback(rng, feats), feats
+    if x < 0.45:
         return gen_random(rng, size, feats, handler_errors=False, history=True), feats
     # 4%: programs of the class of finding K08d (call-with-exception-handler directly in a top-level form)
     return gen_random(rng, size, feats, handler_errors=handler_errors, top_cweh=(x > 0.96)), feats
